@@ -179,6 +179,20 @@ func checkC01(c c01Case, _ *kit.Collector) kit.Result {
 			errs = append(errs, fmt.Sprintf("ref body differs: got %d bytes want %d", len(f.Body), len(c.Body)))
 		}
 	}
+	// (c) the exchange goes on: the same message object decodes the terminal's next frame (the same bytes again) after its
+	// header was used for Encode, and the reply just framed is itself decoded by a message object that has history
+	if err := msg.Decode(append([]byte(nil), src...)); err != nil {
+		errs = append(errs, fmt.Sprintf("after Header.Encode the same message object rejects the source frame it accepted before: %v", err))
+	} else if msg.Header.TerminalPhoneNo != srcPhone || int(msg.Header.Property.BodyDayaLen) != len(c.Src.Spec().Body) {
+		errs = append(errs, fmt.Sprintf("after Header.Encode the source frame decodes differently: phone %q body length %d", msg.Header.TerminalPhoneNo, msg.Header.Property.BodyDayaLen))
+	}
+	if len(errs) == 0 {
+		if err := msg.Decode(exact(out)); err != nil {
+			errs = append(errs, fmt.Sprintf("the framed reply is rejected by a message object that decoded other frames before: %v", err))
+		} else if !bytes.Equal(msg.Body, c.Body) || msg.Header.SerialNumber != c.PlatSerial {
+			errs = append(errs, "the framed reply decodes differently on a message object that decoded other frames before")
+		}
+	}
 	if len(errs) > 0 {
 		res.Err = kit.Fail("round trip mismatch for frame %x: %v", head(out), errs)
 	}
